@@ -23,9 +23,12 @@ func (r *Rng) Next() uint64 {
 func (r *Rng) Intn(n int) int { return int(r.Next() % uint64(n)) }
 
 type Gen struct {
-	S   *Structs
-	R   *Rng
-	Mal bool // malformed stream: one mandatory interface-typed child is left nil
+	S *Structs
+	R *Rng
+	// Mal: malformed stream: one mandatory child of pointer type (not *Ident) is left nil, which the real Walk
+	// dereferences.  (A nil interface child or a nil *Ident makes the real Walk call Visit with a nil node
+	// and go on when the visitor answers nil; the model says Panic for every missing mandatory child.)
+	Mal bool
 	// Full: every optional child present, lists of length 2 (marker trees); NoOpt: every optional child nil
 	Full, NoOpt bool
 	malDone     bool
@@ -138,7 +141,7 @@ func (g *Gen) fill(sv reflect.Value, fields []FieldInfo, depth int) {
 			if !g.present(fi.Opt, depth) {
 				continue
 			}
-			if g.Mal && !g.malDone && !fi.Opt && ft.Kind() == reflect.Interface && g.R.Intn(2) == 0 {
+			if g.Mal && !g.malDone && !fi.Opt && ft.Kind() == reflect.Ptr && kindOf[ft] != "Ident" && g.R.Intn(2) == 0 {
 				g.malDone = true
 				continue
 			}
